@@ -137,6 +137,13 @@ def handle (st : St) (toks : List String) : St × String :=
       -- the process has exited and the history goes on: everything it wrote is on disk
       let settled : Dir String := fun n => (after n).map fun f => { f with synced := f.data.length }
       ({ st with before := st.dir, trace := t, names := names, dir := settled }, traceText st.dir t)
+  | ["pre", ops] =>
+    -- what the saving process's own reopen did before the save (run_cycle's scan_directory)
+    let d := (ops.splitOn ",").foldl (fun (d : Dir String) o =>
+      match o.splitOn ":" with
+      | ["unlink", n] => step d (.unlink n)
+      | _ => d) st.dir
+    ({ st with dir := d }, "ok")
   | ["state", i, k] =>
     match i.toNat?, k.toNat? with
     | some i, some k =>
